@@ -18,6 +18,10 @@ Definition cmax (a b : N) : N :=
   if N.eqb a 0 then b else if N.eqb b 0 then a
   else if N.eqb a 2 && N.eqb b 2 then 2%N else 1%N.
 Definition maxl (l : list N) : N := fold_left cmax l 0%N.
+(** level (A) ties (agreement with the transcribed binary64 model where the implementation goes
+    through dot / norm / running sums, whose summation order is not part of any property):
+    information only — never a violation candidate *)
+Definition info (n : N) : N := if N.eqb n 0 then 0%N else 2%N.
 Fixpoint fails (k : N) (l : list N) : list (N * N) :=
   match l with
   | [] => []
@@ -59,10 +63,10 @@ Definition fbig : float := 0x1.fffffffffffffp+1023%float.
 Definition c_nn_step (tol : float) (x y : list float) (amax r : float) : N :=
   cmpf_rel tol (nn_step F x y amax) r.
 Definition c_soc_step (tol : float) (x y : list float) (amax r : float) : N :=
-  cmpf_rel tol (soc_step F x y amax) r.
+  info (cmpf_rel tol (soc_step F x y amax) r).
 (** the pinned (unrepaired) routine, used to replay F3 *)
 Definition c_soc_step_old (tol : float) (x y : list float) (amax r : float) : N :=
-  cmpf_rel tol (soc_step_old F x y amax) r.
+  info (cmpf_rel tol (soc_step_old F x y amax) r).
 
 (** membership tests used to drive the real [backtrack_search] with closures that Coq can
     evaluate too: 0 = all components > 0; 1 = second-order cone interior;
@@ -94,7 +98,7 @@ Definition sym_view (b : ckind * (list float * list float * list float * list fl
                   end).
 Definition c_comp_sym (tol : float) (bs : list (ckind * (list float * list float * list float * list float)))
            (msf amax r : float) : N :=
-  cmpf_rel tol (comp_step F (map sym_view bs) msf amax) r.
+  info (cmpf_rel tol (comp_step F (map sym_view bs) msf amax) r).
 
 (** margins / shifts *)
 Definition fblock := (ckind * list float)%type.
@@ -105,7 +109,7 @@ Fixpoint cmp_blocks (tol : float) (a b : list fblock) : N :=
   | _, _ => 1%N
   end.
 Definition c_margins (tol : float) (bs : list fblock) (ra rb : float) : N :=
-  let m := comp_margins F fbig bs in cmax (cmpf_rel tol (fst m) ra) (cmpf_rel tol (snd m) rb).
+  info (let m := comp_margins F fbig bs in cmax (cmpf_rel tol (fst m) ra) (cmpf_rel tol (snd m) rb)).
 (** [_shift_to_cone_interior]: the property's observable is "the result is strictly inside
     (margin >= 1)", checked exactly by [p_shift]; a different but valid shift amount is
     reported as information only *)
@@ -145,7 +149,7 @@ Record soc_obs := mkSOCObs {
   so_aff : list float; so_off : list float; so_shift : list float;
   so_circ : list float; so_icirc : list float }.
 Definition c_soc_scaling (tol : float) (s z x y : list float) (a b sigmamu : float) (o : soc_obs) : N :=
-  match soc_update_scaling F s z with
+  info (match soc_update_scaling F s z with
   | None => ofb (negb (so_ok o))
   | Some sc =>
       if negb (so_ok o) then 1%N else
@@ -166,7 +170,7 @@ Definition c_soc_scaling (tol : float) (s z x y : list float) (a b sigmamu : flo
              cmpv tol (soc_combined_ds_shift F w eta x y sigmamu) (so_shift o);
              cmpv tol (soc_circ_op F x y) (so_circ o);
              cmpv tol (soc_inv_circ_op F z y) (so_icirc o) ]
-  end.
+  end).
 
 (** * (ii) exact dyadic re-evaluation *)
 Definition dpow2 (k : Z) : dy := D 1 k.
@@ -505,7 +509,7 @@ Definition c_psd_unit_shift (n : nat) (z : list float) (a : float) (out : list f
     evaluated from that step's (s, z) alone (history independence) *)
 Definition c_soc_state (tol : float) (s z w lam : list float) (eta : float) (u v : list float) (d : float)
            (hs : list float) : N :=
-  match soc_update_scaling F s z with
+  info (match soc_update_scaling F s z with
   | None => 1%N
   | Some sc =>
       maxl [ cmpv tol (sc_w sc) w; cmpv tol (sc_lam sc) lam; cmpf_rel tol (sc_eta sc) eta;
@@ -515,7 +519,7 @@ Definition c_soc_state (tol : float) (s z w lam : list float) (eta : float) (u v
              | None => cmax (ofb (Nat.eqb (length u) 0))
                             (cmpv tol (soc_get_Hs_dense F (sc_w sc) (sc_eta sc)) hs)
              end ]
-  end.
+  end).
 Definition c_nn_state (tol : float) (s z w lam hs : list float) : N :=
   let '(mw, ml) := nn_update_scaling F s z in
   maxl [cmpv_el tol mw w; cmpv_el tol ml lam; cmpv_el tol (nn_get_Hs F mw) hs].
@@ -539,3 +543,82 @@ Definition c_psd_model (tol : float) (n : nat) (Rcm Ricm lam x y : list float) (
          cmpv_tol tol (opsd_combined_ds_shift F n Rm Ri x y sigmamu) shift;
          cmpv_tol tol (opsd_circ_op F n x y) circ;
          cmpv_tol tol (opsd_lam_inv_circ F n lv x) licx ].
+
+(** ** level (B), binding: the second-order-cone operators evaluated EXACTLY on the implementation's
+    outputs, from the stored (w, η, λ) only, division-free (k = 1 + w0):
+      k·W x = η·U(x),  U(x) = ( k(w0 x0 + ζ) ; k x1 + (k x0 + ζ) w1 ),  ζ = w1·x1
+      k·η·W⁻¹x = T(x), T(x) = ( k(w0 x0 − ζ) ; k x1 + (ζ − k x0) w1 )
+      mul_Hs x = η²(2 w (w·x) − J x);  mul_W/mul_Winv(α,β,y) = α·(W x | W⁻¹x) + β·y
+      affine_ds = λ∘λ;  circ_op = x∘y;  z ∘ inv_circ_op(z, y) = y
+      k²(combined_ds_shift + σμ e) = T(Δs) ∘ U(Δz);  λ ∘ T(Δs_from_Δz_offset) = k·η·ds
+    tolerance 2^tolexp relative to the same expressions evaluated on absolute values *)
+Definition dUx (w x : list dy) : list dy :=
+  let w0 := dhd w in let w1 := tl w in let k := dadd d1 w0 in
+  let z := ddot w1 (tl x) in
+  dmul k (dadd (dmul w0 (dhd x)) z) :: dvadd (dscale k (tl x)) (dscale (dadd (dmul k (dhd x)) z) w1).
+Definition dTx (w x : list dy) : list dy :=
+  let w0 := dhd w in let w1 := tl w in let k := dadd d1 w0 in
+  let z := ddot w1 (tl x) in
+  dmul k (dsub (dmul w0 (dhd x)) z) :: dvadd (dscale k (tl x)) (dscale (dsub z (dmul k (dhd x))) w1).
+Definition dcirc (x y : list dy) : list dy :=
+  ddot x y :: dvadd (dscale (dhd x) (tl y)) (dscale (dhd y) (tl x)).
+Definition dclosev (tol : dy) (scale : list dy) (a b : list dy) : bool :=
+  dallclose tol (dnorminf scale) a b.
+Record soc_out := mkSOCOut {
+  q_W1x : list dy; q_Winv1x : list dy; q_Hsx : list dy; q_Wab : list dy; q_Winvab : list dy;
+  q_aff : list dy; q_circ : list dy; q_icirc : list dy; q_shift : list dy; q_off : list dy }.
+Definition p_soc_ops (tolexp : Z) (w lam : list dy) (eta : dy) (x y z : list dy) (a b sigmamu : dy)
+           (o : soc_out) : N :=
+  let tol := dpow2 tolexp in
+  let k := dadd d1 (dhd w) in
+  let aw := dvabs w in let ax := dvabs x in let ay := dvabs y in let al := dvabs lam in
+  let e2 := dmul eta eta in
+  let c1 := dclosev tol (dvadd (dscale eta (dUx aw ax)) (dscale k (dvabs (q_W1x o))))
+                    (dscale k (q_W1x o)) (dscale eta (dUx w x)) in
+  let c2 := dclosev tol (dvadd (dUx aw ax) (dscale (dmul k eta) (dvabs (q_Winv1x o))))
+                    (dscale (dmul k eta) (q_Winv1x o)) (dTx w x) in
+  let wx := ddot w x in
+  let Jx := dhd x :: map dneg (tl x) in
+  let c3 := dclosev tol (dscale e2 (dvadd (dscale (dmul (dofZ 2) (ddot aw ax)) aw) ax))
+                    (q_Hsx o) (dscale e2 (dvadd (dscale (dmul (dofZ 2) wx) w) (map dneg Jx))) in
+  let c4 := N.eqb (p_affine tolexp a b (q_W1x o) y (q_Wab o)) 0 &&
+            N.eqb (p_affine tolexp a b (q_Winv1x o) y (q_Winvab o)) 0 in
+  let c5 := dclosev tol (dcirc al al) (q_aff o) (dcirc lam lam) in
+  let c6 := dclosev tol (dcirc ax ay) (q_circ o) (dcirc x y) in
+  let c7 := dclosev tol (dvadd (dcirc (dvabs z) (dvabs (q_icirc o))) ay) (dcirc z (q_icirc o)) y in
+  let she := dadd (dhd (q_shift o)) sigmamu :: tl (q_shift o) in
+  let c8 := dclosev tol (dvadd (dcirc (dUx aw ay) (dUx aw ax)) (dscale (dmul k k) (dvabs she)))
+                    (dscale (dmul k k) she) (dcirc (dTx w y) (dUx w x)) in
+  let c9 := dclosev tol (dvadd (dcirc al (dUx aw (dvabs (q_off o)))) (dscale (dmul k eta) ax))
+                    (dcirc lam (dTx w (q_off o))) (dscale (dmul k eta) x) in
+  ofb (c1 && c2 && c3 && c4 && c5 && c6 && c7 && c8 && c9).
+
+(** margins() of a block vector, exactly: per block the margin lies in an interval (NN: the exact
+    minimum; SOC: z0 − ‖z1‖ with certified square-root bounds); α must lie in the interval of the
+    minimum and β in the interval of Σ max(0, ·) (NN: Σ max(z_i, 0)), up to slack 2^tolexp·max|z| *)
+Definition dmargin_iv (b : ckind * list dy) : option (dy * dy * dy * dy) :=   (* (αlo, αhi, βlo, βhi) *)
+  match fst b with
+  | KZero => None
+  | KNN => match snd b with
+           | [] => None
+           | v0 :: vs => let m := fold_left dmin vs v0 in
+                         let bs := dsum (map (fun v => dmax v d0) (snd b)) in Some (m, m, bs, bs)
+           end
+  | KSOC => let ss := dsumsq (tl (snd b)) in
+            let lo := dsub (dhd (snd b)) (dsqrt_up ss) in let hi := dsub (dhd (snd b)) (dsqrt_lo ss) in
+            Some (lo, hi, dmax lo d0, dmax hi d0)
+  end.
+Definition p_margins (tolexp : Z) (bs : list (ckind * list dy)) (alpha beta : dy) : N :=
+  let ivs := flat_map (fun b => match dmargin_iv b with Some q => [q] | None => [] end) bs in
+  match ivs with
+  | [] => 0%N
+  | (l0, h0, _, _) :: rest =>
+      let alo := fold_left (fun m q => dmin m (fst (fst (fst q)))) rest l0 in
+      let ahi := fold_left (fun m q => dmin m (snd (fst (fst q)))) rest h0 in
+      let blo := dsum (map (fun q => snd (fst q)) ivs) in
+      let bhi := dsum (map (fun q => snd q) ivs) in
+      let mx := fold_left (fun m b => dmax m (dnorminf (snd b))) bs d0 in
+      let slack := dmul (dpow2 tolexp) (dadd mx (dadd (dabs bhi) (D 1 (-1000)))) in
+      ofb (dleb (dsub alo slack) alpha && dleb alpha (dadd ahi slack) &&
+           dleb (dsub blo slack) beta && dleb beta (dadd bhi slack))
+  end.
